@@ -1,11 +1,19 @@
 //go:build verif
 
-// Verification hooks (build tag "verif" only): accessor for the order in which the watched
-// resource types of a connection are pushed. No behaviour change; absent from normal builds.
+// Verification hooks (build tag "verif" only): accessors for the order in which the watched
+// resource types of a connection are pushed and for pushDeltaXds on a bare connection. No behaviour change; absent from normal builds.
 
 package xds
 
-import "istio.io/istio/pilot/pkg/model"
+import (
+	"context"
+	"io"
+
+	discovery "github.com/envoyproxy/go-control-plane/envoy/service/discovery/v3"
+	"google.golang.org/grpc"
+
+	"istio.io/istio/pilot/pkg/model"
+)
 
 // VerifC17WatchedResourcesByOrder runs Connection.watchedResourcesByOrder on a bare connection
 // around the given proxy and returns the type URLs in the resulting order.
@@ -18,4 +26,35 @@ func VerifC17WatchedResourcesByOrder(proxy *model.Proxy) []string {
 		out = append(out, w.TypeUrl)
 	}
 	return out
+}
+
+// verifC17DeltaStream captures the responses sent on a delta stream.
+type verifC17DeltaStream struct {
+	grpc.ServerStream
+	sent []*discovery.DeltaDiscoveryResponse
+}
+
+func (s *verifC17DeltaStream) Send(r *discovery.DeltaDiscoveryResponse) error {
+	s.sent = append(s.sent, r)
+	return nil
+}
+
+func (s *verifC17DeltaStream) Recv() (*discovery.DeltaDiscoveryRequest, error) { return nil, io.EOF }
+
+func (s *verifC17DeltaStream) Context() context.Context { return context.Background() }
+
+// VerifC17PushDelta runs DiscoveryServer.pushDeltaXds for one watched resource on a bare delta
+// connection around the given proxy and returns the response it sent (nil if none).
+func VerifC17PushDelta(s *DiscoveryServer, proxy *model.Proxy, w *model.WatchedResource, req *model.PushRequest) (*discovery.DeltaDiscoveryResponse, error) {
+	stream := &verifC17DeltaStream{}
+	c := newDeltaConnection("verif-c17", stream)
+	c.proxy = proxy
+	c.SetID("verif-c17")
+	if err := s.pushDeltaXds(c, w, req); err != nil {
+		return nil, err
+	}
+	if len(stream.sent) == 0 {
+		return nil, nil
+	}
+	return stream.sent[len(stream.sent)-1], nil
 }
